@@ -90,6 +90,18 @@ def evolved(doc):
         {"name": "count", "type": {"kind": "base", "name": "uinteger"}, "optional": True}]})
     d["notifications"].append({"method": "verif/extra", "typeName": "VerifExtraNotification", "messageDirection": "clientToServer",
                                "params": {"kind": "reference", "name": "VerifExtraParams"}})
+    # ... and existing declarations differ too (anything remembered per NAME or per metaData.version from an earlier
+    # run in the same interpreter is then wrong): a base structure and a mixin gain a property, an optional
+    # property goes, a closed enumeration gains a value
+    by = {x["name"]: x for x in d["structures"]}
+    for name in ("TextDocumentPositionParams", "WorkDoneProgressParams"):
+        if name in by:
+            by[name]["properties"].append({"name": "verifHint", "type": {"kind": "base", "name": "string"}, "optional": True})
+    if "Hover" in by:
+        by["Hover"]["properties"] = [p for p in by["Hover"]["properties"] if p["name"] != "range"]
+    for e in d["enumerations"]:
+        if e["name"] == "MarkupKind":
+            e["values"].append({"name": "VerifMarkup", "value": "verifmarkup"})
     return d
 
 
@@ -119,6 +131,52 @@ def other_digest(plugin, out, test):
     return h.hexdigest()
 
 
+INPROC = r'''
+import json, sys
+from generator.__main__ import main
+for line in sys.stdin:
+    argv = json.loads(line)
+    code = 0
+    try:
+        main(argv)
+    except SystemExit as e:
+        code = e.code if isinstance(e.code, int) else 1
+    except BaseException:
+        code = 1
+    sys.stdout.write("DONE %d\n" % code)
+    sys.stdout.flush()
+'''
+
+
+class Interpreter:
+    """One long-lived interpreter in which generator.__main__.main is called once per run."""
+
+    def __init__(self, hashseed):
+        env = dict(os.environ, PYTHONPATH=common.REPO, PYTHONHASHSEED=hashseed)
+        self.p = subprocess.Popen([common.PY, "-c", INPROC], cwd=common.REPO, env=env, stdin=subprocess.PIPE, stdout=subprocess.PIPE,
+                                  stderr=subprocess.DEVNULL, text=True)
+
+    def run(self, argv):
+        try:
+            self.p.stdin.write(json.dumps(argv) + "\n")
+            self.p.stdin.flush()
+            while True:
+                line = self.p.stdout.readline()
+                if not line:
+                    return 255                       # the interpreter died
+                if line.startswith("DONE "):
+                    return int(line.split()[1])
+        except (BrokenPipeError, OSError):
+            return 255
+
+    def close(self):
+        try:
+            self.p.stdin.close()
+            self.p.wait(timeout=30)
+        except Exception:  # noqa: BLE001
+            self.p.kill()
+
+
 def run_history(args):
     plugin, hist, models, work, idx, seed = args
     base = os.path.join(work, "h%d" % idx)
@@ -127,8 +185,15 @@ def run_history(args):
     shutil.copytree(os.path.join(common.REPO, "tests", "rust"), test, ignore=shutil.ignore_patterns("target"))
     events = []
     rnd = random.Random(seed * 1000 + idx)
+    interp = None
     try:
         for a in hist:
+            if a["a"] == "OneInterpreter":
+                first = next((x for x in hist if x["a"] == "Run"), None)
+                hs0 = first["seed"] if first and first["seed"] != "r" else str(rnd.randint(2, 4000000))
+                interp = Interpreter(hs0)             # the hash seed is a property of the process: the first run's
+                events.append({"e": "OneInterpreter", "plugin": plugin})
+                continue
             if a["a"] == "Stale":
                 placed = []
                 for path, content in STALE[plugin](out, test):
@@ -149,17 +214,24 @@ def run_history(args):
             hs = a["seed"] if a["seed"] != "r" else str(rnd.randint(2, 4000000))
             # "nothing written" only matters for runs that must be refused
             before = other_digest(plugin, out, test) if not a["valid"] else ""
-            env = dict(os.environ, PYTHONPATH=common.REPO, PYTHONHASHSEED=hs)
-            p = subprocess.run([common.PY, "-m", "generator", "--model"] + mlist + ["--plugin", plugin, "--output-dir", out, "--test-dir", test],
-                               cwd=common.REPO, env=env, stdout=subprocess.DEVNULL, stderr=subprocess.DEVNULL, timeout=1800)
+            argv = ["--model"] + mlist + ["--plugin", plugin, "--output-dir", out, "--test-dir", test]
+            if interp is not None:
+                rcode = interp.run(argv)
+            else:
+                env = dict(os.environ, PYTHONPATH=common.REPO, PYTHONHASHSEED=hs)
+                p = subprocess.run([common.PY, "-m", "generator"] + argv,
+                                   cwd=common.REPO, env=env, stdout=subprocess.DEVNULL, stderr=subprocess.DEVNULL, timeout=1800)
+                rcode = p.returncode
             digest, n, uuid = snapshot(plugin, out, test)
             stale_left = [os.path.basename(pth) for pth, content in STALE[plugin](out, test)
                           if os.path.exists(pth) and open(pth).read() == content]
             events.append({"e": "Run", "plugin": plugin, "model": a["model"], "seed": a["seed"], "valid": a["valid"],
-                           "exit": p.returncode if p.returncode >= 0 else 255, "digest": digest, "n": n,
+                           "exit": rcode if rcode >= 0 else 255, "digest": digest, "n": n,
                            "stale_left": stale_left, "uuid": uuid,
                            "changed": (other_digest(plugin, out, test) != before) if not a["valid"] else False})
     finally:
+        if interp is not None:
+            interp.close()
         shutil.rmtree(base, ignore_errors=True)
     return events
 
@@ -205,6 +277,10 @@ def check_c16(tier):
             a = h["hist"]
             if (len(a) == 3 and a[0]["a"] == "Run" and a[1]["a"] == "Stale" and a[2]["a"] == "Run" and a[0]["valid"] and a[2]["valid"]
                     and a[0]["seed"] == "0" and a[2]["seed"] == "1" and a[0]["model"] != "C" and a[2]["model"] != "C"):
+                must.append(h)
+            # ... and two or three runs of different models inside ONE interpreter
+            if (len(a) == 3 and a[0]["a"] == "OneInterpreter" and a[1]["a"] == "Run" and a[2]["a"] == "Run" and a[1]["valid"] and a[2]["valid"]
+                    and a[1]["model"] != a[2]["model"] and a[1]["seed"] == "0" and a[2]["seed"] == "0"):
                 must.append(h)
         # a list of two model files under different hash seeds (the merge order must be the command-line order)
         for plugin in ("python", "rust", "dotnet"):
